@@ -21,7 +21,7 @@ func init() {
 				"C16.topo (the topological listing has no gaps: InsertEvent consumes a topological index only after Store.SetEvent stored the event under it; dbSetEvents writes the key of exactly that index; Bootstrap reads consecutive keys), " +
 				"C16.fields (every field of a persisted type is serialised by its codec — exported, untagged — or is a listed cache that is recomputed; on the pinned tree RoundInfo.decided / queued are neither: known finding F-C16-2), C16.codec (dbSetX marshals with T.Marshal[DB] and dbGetX unmarshals with the matching T.Unmarshal[DB] of the same type), C16.sibling (thorough: the mobile store equals badger_store.go modulo the import path). " +
 				"NOT decided: behaviour after eviction and reopen as a value-level map model; durability; the five dropped store errors reported by errcheck in hashgraph (read one by one: none loses persisted content on this property's paths)."},
-		Rules:    []ruleFunc{c16readthrough, c16writethrough, c16keys, c16codec, func(p *Prog, r *Report) { topoRule(p, r, "C16.topo") }, c16fields},
+		Rules:    []ruleFunc{c16readthrough, c16writethrough, c16keys, c16codec, func(p *Prog, r *Report) { topoRule(p, r, "C16.topo") }, c16fields, c16lru},
 		Thorough: []ruleFunc{siblingRule("C16.sibling")},
 	})
 }
@@ -541,5 +541,74 @@ func c16fields(p *Prog, r *Report) {
 			r.Check(ok, rule, t[1]+"."+f.Name()+":serialised-or-derived", p.pos(f.Pos()), "", "not serialised, recomputed: "+why,
 				"field "+t[1]+"."+f.Name()+" is part of a persisted value but is dropped by the codec (unexported / hidden) and is not a recomputed cache: a "+t[1]+" read back from the database differs from the one written")
 		}
+	}
+}
+
+
+// C16.lru: write-through only helps if the cache takes the new value. For a key already cached,
+// LRU.Add must store its value parameter into the existing entry on every path.
+func c16lru(p *Prog, r *Report) {
+	const rule = "C16.lru"
+	r.Rule(rule, 1, "LRU.Add replaces the value of a key that is already cached")
+	fn := p.Func(COMM, "LRU", "Add")
+	if fn == nil {
+		r.Anchor(rule, "common.(*LRU).Add")
+		return
+	}
+	val := ssa.Value(fn.Params[2])
+	// every return reached with the key present passes a store of the value parameter into an entry
+	qPresent := func(l Lit) bool {
+		if lk, present, ok := lookupLit(l); ok && present {
+			fv, _ := fieldOf(lk.X)
+			return fv != nil && fv.Name() == "items"
+		}
+		// or via Get/Peek/Contains on the same cache
+		if l.Pos {
+			if c, idx := callOf(l.V); c != nil {
+				if f := calleeFunc(c.Common()); f != nil && recvNamed(f) == "LRU" && (idx == 1 || f.Name() == "Contains") {
+					return true
+				}
+			}
+		}
+		return false
+	}
+	var stores []ssa.Instruction
+	for _, b := range fn.Blocks {
+		for _, in := range b.Instrs {
+			if st, ok := in.(*ssa.Store); ok && unwrap(st.Val) == val {
+				if fv, _ := fieldOf(st.Addr); fv != nil && fv.Name() == "value" {
+					stores = append(stores, st)
+				}
+			}
+		}
+	}
+	n := 0
+	for _, b := range fn.Blocks {
+		ret, ok := b.Instrs[len(b.Instrs)-1].(*ssa.Return)
+		if !ok || (b.Index != 0 && len(b.Preds) == 0) {
+			continue
+		}
+		// is this return on the "already present" side?
+		pi := p.pathMasks(fn, []Pred{qPresent})
+		presentPath := false
+		for m := range pi.in[b.Index] {
+			if pi.predMask(m)&1 != 0 {
+				presentPath = true
+			}
+		}
+		if !presentPath {
+			continue
+		}
+		n++
+		ok2 := false
+		for _, st := range stores {
+			if dominates(st, ret) {
+				ok2 = true
+			}
+		}
+		r.Check(ok2, rule, "LRU.Add:existing-key-gets-new-value", p.ipos(ret), fnName(fn), "the entry of an existing key is overwritten with the new value", "LRU.Add returns for an already-cached key without storing the new value: the in-memory store keeps serving the old object (e.g. a block without its latest signatures) while the database holds the new one, until eviction or restart")
+	}
+	if n == 0 {
+		r.Fail(rule, "LRU.Add:existing-key-gets-new-value", p.pos(fn.Pos()), fnName(fn), "no 'key already present' path found in LRU.Add")
 	}
 }
